@@ -1,50 +1,46 @@
 package ysgo
 
 import (
-	"github.com/remieven/ysgo/internal/rng"
+	"github.com/remieven/ysgo/variable"
 )
 
 // C09 (range part): for every seed value and every value rand may return by contract,
-// dice(n) in [1,n], random_range(a,b) in [a,b], random() in [0,1) -- decided on the integer level
-// on the functions the built-in table registers.
+// dice(n) in [1,n], random_range(a,b) in [a,b], random() in [0,1) -- called by name through the real table and
+// bridge with 32-bit integer arguments; the integer results are recovered exactly (vExactInt).
 
 func VHRandomContracts() {
-	r, err := rng.NewRNG(vString("seed", 1+vChoose("seedlen", 3)))
-	if err != nil {
-		vReach("bad-seed")
-		return
-	}
+	fs := vNewFunctionStorer(vString("seed", 1+vChoose("seedlen", 3)))
 	switch vChoose("fn", 3) {
 	case 0:
-		n := vInt("n")
-		var v int
+		n := int(vInt32("n"))
+		var v *variable.Value
 		var e error
-		panicked := vTry(func() { v, e = checkedDice(r)(n) })
+		panicked := vTry(func() { v, e = fs.call("dice", []*variable.Value{vNum(float64(n))}) })
 		vAssert(!panicked, "dice never panics")
 		vAssert((e != nil) == (n < 1), "dice errs exactly when there is no side")
 		if e == nil {
 			vReach("dice")
-			vAssert(1 <= v && v <= n, "dice(n) in [1,n]")
+			vAssert(vKind(v) == 0, "dice returns a number")
+			r, ok := vExactInt(*v.Number)
+			vAssert(ok && 1 <= r && r <= n, "dice(n) is an integer in [1,n]")
 		}
 	case 1:
-		a, b := vInt("a"), vInt("b")
-		var v int
+		a, b := int(vInt32("a")), int(vInt32("b"))
+		var v *variable.Value
 		var e error
-		panicked := vTry(func() { v, e = checkedRandomRange(r)(a, b) })
+		panicked := vTry(func() { v, e = fs.call("random_range", []*variable.Value{vNum(float64(a)), vNum(float64(b))}) })
 		vAssert(!panicked, "random_range never panics")
-		if a > b {
-			vAssert(e != nil, "random_range on an empty range is an error")
-		}
+		vAssert((e != nil) == (a > b), "random_range errs exactly on an empty range")
 		if e == nil {
 			vReach("random_range")
-			vAssert(a <= v && v <= b, "random_range(a,b) in [a,b]")
-		}
-		if a <= b && b-a >= 0 && b-a+1 > 0 {
-			vAssert(e == nil, "random_range succeeds on every representable non-empty range")
+			vAssert(vKind(v) == 0, "random_range returns a number")
+			r, ok := vExactInt(*v.Number)
+			vAssert(ok && a <= r && r <= b, "random_range(a,b) is an integer in [a,b]")
 		}
 	case 2:
-		v := random(r)()
+		v, e := fs.call("random", nil)
+		vAssert(e == nil && vKind(v) == 0, "random() returns a number")
 		vReach("random")
-		vAssert(0 <= v && v < 1, "random() in [0,1)")
+		vAssert(0 <= *v.Number && *v.Number < 1, "random() in [0,1)")
 	}
 }
